@@ -10,6 +10,7 @@
 -/
 import HL.Lemmas.Lexer
 import HL.Lemmas.LexLocal
+import HL.Lemmas.LexCover
 namespace HL.Props.C06
 open HL HL.Lex HL.Spec.LexSpec
 
@@ -91,6 +92,86 @@ theorem lex_no_overlap (C : Classes) (input : Bytes) :
     (lexAll C input).Pairwise
       (fun a b => a.stop.off ≤ b.pos.off ∧ (b.ty ≠ .eof → a.stop.off < b.stop.off)) :=
   (ordered_pairwise _ _ _ (lexAll_ordered C input)).2
+
+/-! ### cover -/
+
+/-- Cover, lenient reading — for every input: every byte that no token extent contains is a
+    blank, provided an empty `( ) [ ] |` token is taken to cover the character in front of it. -/
+theorem tokens_cover_lenient (C : Classes) (input : Bytes) :
+    covered true input (lexAll C input) = true := by
+  rw [covered, List.all_eq_true, lexAll_eq_lexS]
+  intro c hc
+  have := lexS_covered C input.length (Z.init input) (by simp [Z.init]) c (by simpa [Z.init, Z.input] using hc)
+  simp [this]
+
+/-- Cover as the property words it fails: the one-character tokens `( ) [ ] |` are empty and sit
+    behind their character (`makeToken` after `advance`), so that character is in no token.
+    Known finding `punct-empty-extent`; reproduced on the implementation by
+    replays/C06/punct-empty-extent.jsonl. -/
+theorem tokens_cover_counterexample :
+    covered false (asc "a | b") (lexAll Classes.ascii (asc "a | b")) = false ∧
+      (lexAll Classes.ascii (asc "a | b")).map (fun t => (t.ty, t.pos.off, t.stop.off)) =
+        [(.text, 0, 2), (.pipe, 3, 3), (.text, 4, 5), (.eof, 5, 5)] := by
+  decide +kernel
+
+/-- Strict cover holds whenever the stream contains none of the empty punctuation tokens. -/
+theorem tokens_cover_partial (C : Classes) (input : Bytes)
+    (h : (lexAll C input).all (fun t => !isPunct t) = true) :
+    covered false input (lexAll C input) = true := by
+  have hl := tokens_cover_lenient C input
+  rw [covered] at hl ⊢
+  rw [← gaps_lenient_eq input 0 (lexAll C input)]
+  · exact hl
+  · intro t ht
+    have := List.all_eq_true.mp h t ht
+    simpa using this
+
+/-- non-vacuity of `tokens_cover_partial`: a posting line satisfies the guard -/
+example : (lexAll Classes.ascii (asc "  a:b  1 USD ; c\n")).all (fun t => !isPunct t) = true := by
+  decide +kernel
+
+/-! ### lines -/
+
+/-- Every LF byte becomes exactly one Newline token (at the LF's offset, in order), and there
+    is no other Newline token. -/
+theorem newlines_are_the_lf_bytes (C : Classes) (input : Bytes) :
+    newlineOffsets (lexAll C input) = lfOffsets input := by
+  rw [lexAll_eq_lexS]
+  exact lexS_newlines C input.length (Z.init input) (by simp [Z.init])
+
+/-- A token's line is 1 + the number of LF bytes in front of it. -/
+theorem token_lines (C : Classes) (input : Bytes) : linesOk input (lexAll C input) = true := by
+  rw [linesOk, List.all_eq_true, lexAll_eq_lexS]
+  intro t ht
+  have := lexS_lines C 1 input.length (Z.init input) (by simp [Z.init]) (by simp [Z.init, countLF]) t ht
+  simp only [Z.init, Z.input, List.reverse_nil, List.nil_append, countLF] at this
+  simp [this]
+
+/-- The verdict of the executable oracle (the one that judges the implementation's streams in
+    `lex.tokens`) on the model's stream of ANY input is "ok" or exactly the known finding. -/
+theorem oracle_on_model (C : Classes) (input : Bytes) :
+    (judge input (lexAll C input)).ok = true ∨
+      (judge input (lexAll C input)).known = ["punct-empty-extent"] := by
+  have h1 := lexAll_ordered C input
+  have h2 := newlines_are_the_lf_bytes C input
+  have h3 := token_lines C input
+  have h4 := tokens_cover_lenient C input
+  have h5 : (lexAll C input).all (fun t => t.ty != .newline ||
+      (t.stop.off == t.pos.off + 1 && t.stop.line == t.pos.line + 1 && t.stop.col == 1)) = true := by
+    rw [List.all_eq_true, lexAll_eq_lexS]
+    intro t ht
+    have := lexS_forall C (fun t => t.ty = .newline →
+        t.stop.off = t.pos.off + 1 ∧ t.stop.line = t.pos.line + 1 ∧ t.stop.col = 1)
+      (next_newline_shape C) input.length (Z.init input) (by simp [Z.init]) t ht
+    by_cases hty : t.ty = .newline
+    · obtain ⟨a, b, c⟩ := this hty
+      simp [a, b, c]
+    · simp [hty]
+  unfold judge
+  simp only [h1, h2, h3, h4, h5, Bool.not_true, Bool.false_eq_true, if_false, bne_self_eq_false]
+  split
+  · right; rfl
+  · left; rfl
 
 /-! ### line-locality (lexical premise of C07, layer L2 of C03) -/
 
